@@ -593,7 +593,9 @@ func TestC20RunExecuteObjects(t *testing.T) {
 		case res.Err == nil && verdict != res.Val.Truth():
 			violation(rt, "C20", payload, "Execute returned %s (truth %v) but Run returned %v", res.Val.Describe(), res.Val.Truth(), verdict)
 		}
-		col.Case(fmt.Sprint(script, o), true, func() interface{} { return map[string]interface{}{"script": script, "object_mode": o.Mode, "fields": len(o.Fields)} })
+		col.Case(fmt.Sprint(script, o), true, func() interface{} {
+			return map[string]interface{}{"script": script, "object_mode": o.Mode, "fields": len(o.Fields)}
+		})
 	})
 }
 
